@@ -838,9 +838,6 @@ func TestVerif_C13(t *testing.T) {
 					if len(v) > 900 {
 						v = v[:900] // (the event dump of a large case is long)
 					}
-					if c != nil {
-						c.Events = nil // replay identifies the case by kind and cut; the events are rebuilt
-					}
 					fail(v, c)
 				}
 				res.Outcomes["large-events"]++
